@@ -62,3 +62,35 @@ impl Drop for Section {
         }
     }
 }
+
+/// Batch mode for differential testing of the language server's grammar parser: when
+/// `PAROL_LS_VERIF_PARSE` names a file with one JSON object `{"id": .., "text": ..}` per line,
+/// every text is parsed with the language server's parser and `{"id": .., "verdict": ..}` is
+/// printed per line (`ok`, `syntax` or `other`). Returns true if the mode was active.
+pub(crate) fn parse_mode() -> bool {
+    let Ok(path) = std::env::var("PAROL_LS_VERIF_PARSE") else {
+        return false;
+    };
+    let Ok(content) = std::fs::read_to_string(&path) else {
+        eprintln!("VERIF-PARSE cannot read {path}");
+        return true;
+    };
+    for line in content.lines() {
+        let Ok(v) = serde_json::from_str::<serde_json::Value>(line) else {
+            continue;
+        };
+        let text = v["text"].as_str().unwrap_or_default().to_string();
+        let result = std::panic::catch_unwind(|| {
+            let mut grammar = crate::parol_ls_grammar::ParolLsGrammar::new();
+            crate::parol_ls_parser::parse(&text, "verif.par", &mut grammar).map(|_| ())
+        });
+        let verdict = match result {
+            Ok(Ok(())) => "ok".to_string(),
+            Ok(Err(parol_runtime::ParolError::UserError(e))) => format!("other: {e}"),
+            Ok(Err(_)) => "syntax".to_string(),
+            Err(_) => "panic".to_string(),
+        };
+        println!("{}", serde_json::json!({"id": v["id"], "verdict": verdict}));
+    }
+    true
+}
